@@ -591,3 +591,8 @@ V("c14-smt-exists-suppress-inverted", "C14", SM, _EX_OLD, "", rule="SIB1",
 _EBN_OLD = "    validate_is_bytes(left_child_node_hash)\n    validate_length(left_child_node_hash, 32)\n    validate_is_bytes(right_child_node_hash)\n    validate_length(right_child_node_hash, 32)\n"
 V("silent-encode-branch-display-loop", "C18", "trie/utils/nodes.py", _EBN_OLD, "    for child_node_hash in (left_child_node_hash, right_child_node_hash):\n        validate_is_bytes(child_node_hash)\n        validate_length(child_node_hash, 32)\n", expect="silent", props=["C18", "C16", "C12"])
 V("c18-encode-branch-display-loop-one-only", "C18", "trie/utils/nodes.py", _EBN_OLD, "    for child_node_hash in (left_child_node_hash,):\n        validate_is_bytes(child_node_hash)\n        validate_length(child_node_hash, 32)\n")
+
+# bit packing spelled with generator expression / map(operator.mul): right and wrong
+_E2B_OLD = "    for char in value:\n        for exp in EXP:\n            if char & exp:\n                yield True\n            else:\n                yield False\n"
+V("silent-encode-to-bin-genexp", "C16", "trie/utils/binaries.py", _E2B_OLD, "    return (bool(char & exp) for char in value for exp in EXP)\n", expect="silent", props=["C16", "C12"])
+V("c16-encode-to-bin-genexp-inverted", "C16", "trie/utils/binaries.py", _E2B_OLD, "    return (not (char & exp) for char in value for exp in EXP)\n", expect="inconclusive")
